@@ -1,7 +1,8 @@
-(** A small model of x/bank balances: address x denomination -> amount, total supply per denomination.
-    Keys of the balance store are compkey encodings of [address; denom] (injective by C18). *)
+(** A small model of x/bank: balances (address x denomination -> amount), total supply per denomination,
+    delayed-vesting locks, the set of existing accounts.  Keys of the balance store are compkey encodings
+    of [address; denom] (injective by C18). *)
 From Coq Require Import Strings.String Strings.Byte.
-From Coq Require Import List Arith NArith Bool.
+From Coq Require Import List Arith NArith ZArith Bool.
 From PV Require Import Base.Bytes Base.Outcome Base.KV Compkey.Model.
 Import ListNotations.
 Local Open Scope N_scope.
@@ -9,7 +10,15 @@ Local Open Scope N_scope.
 Definition coin := (bytes * N)%type.          (* denom, amount *)
 Definition coins := list coin.
 
-Record bank := { balances : store N; supply : store N }.
+(** a delayed vesting account: the original vesting amount stays locked until [end] (unix seconds) *)
+Record vesting := { v_addr : bytes; v_amount : coins; v_end : Z }.
+
+Record bank := { balances : store N; supply : store N; vestings : list vesting; accounts : list bytes }.
+
+Definition with_balances (bk : bank) (b : store N) : bank :=
+  {| balances := b; supply := supply bk; vestings := vestings bk; accounts := accounts bk |}.
+Definition with_supply (bk : bank) (s : store N) : bank :=
+  {| balances := balances bk; supply := s; vestings := vestings bk; accounts := accounts bk |}.
 
 Definition bal_key (a d : bytes) : bytes :=
   match encode [a; d] with Some k => k | None => [] end.
@@ -18,19 +27,38 @@ Definition balance (bk : bank) (a d : bytes) : N :=
   match get (bal_key a d) (balances bk) with Some n => n | None => 0 end.
 
 Definition set_balance (bk : bank) (a d : bytes) (n : N) : bank :=
-  {| balances := (if n =? 0 then del (bal_key a d) (balances bk) else set (bal_key a d) n (balances bk));
-     supply := supply bk |}.
+  with_balances bk (if n =? 0 then del (bal_key a d) (balances bk) else set (bal_key a d) n (balances bk)).
 
 Definition supply_of (bk : bank) (d : bytes) : N :=
   match get d (supply bk) with Some n => n | None => 0 end.
+Definition set_supply (bk : bank) (d : bytes) (n : N) : bank :=
+  with_supply bk (if n =? 0 then del d (supply bk) else set d n (supply bk)).
 
-(** subtract coins from an account; None if some balance is insufficient *)
-Fixpoint sub_coins (bk : bank) (a : bytes) (cs : coins) : option bank :=
+Definition amount_of (cs : coins) (d : bytes) : N :=
+  fold_left (fun acc c => if bytes_eqb (fst c) d then acc + snd c else acc) cs 0.
+
+Definition mem_addr (a : bytes) (l : list bytes) : bool := existsb (bytes_eqb a) l.
+Definition account_exists (bk : bank) (a : bytes) : bool := mem_addr a (accounts bk).
+Definition add_account (bk : bank) (a : bytes) : bank :=
+  if account_exists bk a then bk
+  else {| balances := balances bk; supply := supply bk; vestings := vestings bk; accounts := a :: accounts bk |}.
+
+(** LockedCoins(addr, block time): the original vesting of a delayed vesting account before its end time.
+    [now] is the block time in unix nanoseconds *)
+Definition now_seconds (now : Z) : Z := (now / 1000000000)%Z.
+Definition locked (bk : bank) (now : Z) (a d : bytes) : N :=
+  fold_left (fun acc v => if bytes_eqb (v_addr v) a && (now_seconds now <? v_end v)%Z then acc + amount_of (v_amount v) d else acc)
+            (vestings bk) 0.
+
+(** subUnlockedCoins: every coin must be covered by balance - locked *)
+Fixpoint sub_coins (bk : bank) (now : Z) (a : bytes) (cs : coins) : option bank :=
   match cs with
   | [] => Some bk
   | (d, n) :: r =>
-      if balance bk a d <? n then None
-      else sub_coins (set_balance bk a d (balance bk a d - n)) a r
+      let bal := balance bk a d in
+      let lk := locked bk now a d in
+      if (bal <? lk) || (bal - lk <? n) then None
+      else sub_coins (set_balance bk a d (bal - n)) now a r
   end.
 
 Fixpoint add_coins (bk : bank) (a : bytes) (cs : coins) : bank :=
@@ -39,9 +67,33 @@ Fixpoint add_coins (bk : bank) (a : bytes) (cs : coins) : bank :=
   | (d, n) :: r => add_coins (set_balance bk a d (balance bk a d + n)) a r
   end.
 
-(** SendCoins without vesting locks (custom-module histories never create vesting accounts) *)
-Definition send (bk : bank) (from to : bytes) (cs : coins) : option bank :=
-  match sub_coins bk from cs with
-  | Some bk' => Some (add_coins bk' to cs)
+(** SendCoins: the recipient account is created if it does not exist *)
+Definition send (bk : bank) (now : Z) (from to : bytes) (cs : coins) : option bank :=
+  match sub_coins bk now from cs with
+  | Some bk' => Some (add_account (add_coins bk' to cs) to)
   | None => None
+  end.
+
+(** the denominations an address holds, in store order (GetAllBalances) *)
+Definition denoms_of (bk : bank) (a : bytes) : list bytes :=
+  flat_map (fun e => match decode (fst e) with
+                     | Some [a'; d] => if bytes_eqb a a' then [d] else []
+                     | _ => [] end) (balances bk).
+
+(** SpendableCoins: all balances minus the locked coins; empty if some locked amount exceeds its balance *)
+Definition lock_denoms (bk : bank) (now : Z) (a : bytes) : list bytes :=
+  flat_map (fun v => if bytes_eqb (v_addr v) a && (now_seconds now <? v_end v)%Z then map fst (v_amount v) else []) (vestings bk).
+
+Definition spendable_coins (bk : bank) (now : Z) (a : bytes) : coins :=
+  let ds := denoms_of bk a in
+  if existsb (fun d => balance bk a d <? locked bk now a d) (ds ++ lock_denoms bk now a) then []
+  else flat_map (fun d => let n := balance bk a d - locked bk now a d in if n =? 0 then [] else [(d, n)]) ds.
+
+(** BurnCoins from a module account: balance and supply go down by the amount *)
+Fixpoint burn_from (bk : bank) (module_acc : bytes) (cs : coins) : option bank :=
+  match cs with
+  | [] => Some bk
+  | (d, n) :: r =>
+      if balance bk module_acc d <? n then None
+      else burn_from (set_supply (set_balance bk module_acc d (balance bk module_acc d - n)) d (supply_of bk d - n)) module_acc r
   end.
